@@ -154,7 +154,7 @@ theorem sinvl_step {c : Cfg} (hc : SOHyp c) {s s' : St} {t : Tid} {ev : Ev} {L :
   | sChk w d p x nx mk => exact sinvl_step_sChk h hpc hs
   | sHelp w d p x nx => exact sinvl_step_sHelp h hpc hs
   | iSt w d p x => exact sinvl_step_iSt h hpc hs
-  | iCas w d p x => exact sinvl_step_iCas hc h hpc hs
+  | iCas w d p x => exact sinvl_step_iCas h hpc hs
   | iClr w d => exact sinvl_step_iClr h hpc hs
   | eMark k d p x nx => exact sinvl_step_eMark hc h hpc hs
   | eUnl k p x nx => exact sinvl_step_eUnl h hpc hs
